@@ -377,12 +377,13 @@ class IndividualParameters:
 
         # Get the column names
         final_names = ["ID"]
-        for p_name, p_shape in self._parameters_shape.items():
-            if p_shape == (1,) and "source" not in p_name:
+        for p_name, p_size in self._parameters_size.items():
+            # scalar parameters (shape `()`) take one column, like 1D arrays of length 1
+            if p_size == 1 and "source" not in p_name:
                 final_names.append(p_name)
             else:
                 final_names += [
-                    p_name + "_" + str(i) for i in range(p_shape[0])
+                    p_name + "_" + str(i) for i in range(p_size)
                 ]  # 1D array only...
 
         df = pd.DataFrame(arr, columns=final_names)
